@@ -98,6 +98,15 @@ def chiterSkip (nodes : Bool) (it : Red.It) (r : Red) : Nat → Red.It × Red ×
     | some _ => chiterSkip nodes res.2.1 res.2.2 k
     | none => (res.2.1, res.2.2, true)
 
+/-- run the iterator to its end: the items it yields -/
+def chiterDrain (nodes : Bool) (it : Red.It) (r : Red) : Nat → List Path × Red
+  | 0 => ([], r)
+  | k + 1 =>
+    let res := if nodes then it.nextNode r (it.rest.length + 1) else it.nextElem r
+    match res.1 with
+    | some p => let (ps, r') := chiterDrain nodes res.2.1 res.2.2 k; (p :: ps, r')
+    | none => ([], res.2.2)
+
 /-- `chiter`: drive a child iterator -/
 def chiterOps (rs : RState) (t : Nat) (nodes : Bool) (it : Red.It) (r : Red) : List String → RState × Red × List String
   | [] => (rs, r, [])
@@ -114,6 +123,16 @@ def chiterOps (rs : RState) (t : Nat) (nodes : Bool) (it : Red.It) (r : Red) : L
     | "len" => let (rs2, r2, ss) := chiterOps rs t nodes it r rest; (rs2, r2, toString n :: ss)
     | "size_hint" => let (rs2, r2, ss) := chiterOps rs t nodes it r rest; (rs2, r2, s!"{n},{n}" :: ss)
     | "count" => (rs, r, [toString n])
+    | "last" =>
+      -- `Iterator::last` (not overridden by the crate): the last item `next` yields
+      let (ps, r1) := chiterDrain nodes it r (it.rest.length + 1)
+      (match ps.getLast? with
+       | some p => let (rs1, s) := showEl rs t r1 p; (rs1, r1, [s])
+       | none => (rs, r1, ["none"]))
+    | "fold" =>
+      let (ps, r1) := chiterDrain nodes it r (it.rest.length + 1)
+      let (rs1, ss) := showEls rs t r1 ps
+      (rs1, r1, ss ++ ["none"])
     | _ =>
       if op.startsWith "nth" then
         -- `Iterator::nth` (not overridden by the crate): `k` calls of `next` are discarded, the next one is the answer
